@@ -9,6 +9,8 @@ parameterisation `Ops`, both build profiles, every state and every reference dep
 -/
 import CamVerif.Proofs.C18Access
 import CamVerif.Proofs.C18Err
+import CamVerif.Proofs.C18Reach
+import CamVerif.Proofs.C18Mono
 namespace CamVerif.C18
 open CamVerif CamVerif.GenApi CamVerif.GenApiSem
 
@@ -516,24 +518,8 @@ theorem access_error_explained (cx : Ctx F E) (fuel : Nat) (n : NodeId) (st : St
     cases hm : isWritableF cx (execRec cx fuel) n st.s with
     | mk r l => rw [hm] at h; cases r <;> simp at h ⊢; exact h
 
-/- NOT PROVED (intended strengthening, kept as a statement only): the failing node `c` of
-`access_error_explained` is a controlling node or selector OF A NODE THE QUERY CONSULTS, i.e.
-
-  def access_error_explained_reachable_statement : Prop :=
-    ∀ (cx : Ctx F E) (fuel : Nat) (n : NodeId) (st : St F) (e : Err),
-      (exec cx (fuel + 1) (.isReadable n) st).1 = .err e →
-        e = .invalidNode ∨ e = .outOfFuel ∨
-        ∃ m c d, Reach cx n m ∧ d ≤ fuel ∧
-          ((IsController cx m c ∧ R.val (boolFromId cx (execRec cx d) c) st.s = .err e) ∨
-           (IsSelector cx m c ∧ R.val (pIndexIndex cx (execRec cx d) c) st.s = .err e))
-
-  (`Reach` = reflexive-transitive closure of "is value source / target / selector / formula
-  variable / converter pValue of"; `IsController cx m c` = `c` is `pIsImplemented` / `pIsAvailable` /
-  `pIsLocked` of `m`; `IsSelector cx m c` = `c` is the `pIndex` selector of `m`'s value.)
-What is missing: the lemmas of Proofs/C18Err.lean carry no information about WHICH node's base
-/ value kind they are applied to; threading a witness predicate (monotone along `Reach`)
-through them is mechanical but was not done in the time box.  The implementation-side oracle
-`access-error-unexplained` does check reachability (it only looks at what the query may consult). -/
+/- The strengthening with reachability (the failing node is one the query consults; the cause of an
+`InvalidNode` answer) is `access_error_explained_reachable` below. -/
 
 /-- what it means that the evaluation of `c` as controlling node fails with `e`: `c` is a
 boolean node whose value evaluation fails with `e`, or an integer node whose value
@@ -581,5 +567,388 @@ example : (exec ExErr.cx 3 (.isReadable 2) ExErr.st).1 = .err .device ∧
     (exec ExErr.cx 3 (.isWritable 2) ExErr.st).1 = .err .device ∧
     R.val (boolFromId ExErr.cx (execRec ExErr.cx 2) 1) ExErr.st.s = .err .device := by
   refine ⟨?_, ?_, ?_⟩ <;> rfl
+
+/-! ## The error side, with reachability -/
+
+/-- **access_error_explained_reachable**: `access_error_explained` with the failing node located.
+`Consults cx (m, n) (m', c)` is the reflexive-transitive closure of the references the query `m`
+(`.r`: `is_readable`, `.w`: `is_writable`) of `n` follows, with the way `m'` in which `c` is looked at
+(`nodeRefs`: `pIsImplemented` / `pIsAvailable` and — for `.w` only — `pIsLocked`, which are only
+EVALUATED (`.v`: nothing is followed from them); `pValue` and — for `.w` only — its copies; the
+`pIndex` selector, asked `is_readable` by both queries, and the branches; formula variables (always
+`.r`), converter `pValue`); `Below cx m n c k` says that some node consulted by the query `m` of `n`
+refers to `c` *as* `k` (controller, selector, value, string value, formula scalar) — so `c` is
+consulted too (`Below.consults`).  If `is_readable` / `is_writable` of `n` answers an error `e` then
+* `e = InvalidNode` and either `n` itself has no interface with that query (`NoReadIface` /
+  `NoWriteIface`: absent or of such a kind), or there is a witness `c`, `k`: a node consulted from
+  `n` refers to `c` as `k` and `c` does not offer what `k` needs (`offers cx c k = false`: absent or
+  of the wrong kind); or
+* `e` is the model-only `outOfFuel`; or
+* a node consulted from `n` has `c` as controlling node (resp. `pIndex` selector) and, at that
+  state and some depth `d ≤ fuel`, the evaluation of `c` as controlling node (resp. selector)
+  fails with exactly `e` (`controller_failure` / `selector_failure` say what that means; an absent
+  or ill-kinded controller is the case `e = InvalidNode` of those).
+For every graph (cyclic, ill-typed …), state, profile and depth. -/
+theorem access_error_explained_reachable (cx : Ctx F E) (fuel : Nat) (n : NodeId) (st : St F) (e : Err) :
+    ((exec cx (fuel + 1) (.isReadable n) st).1 = .err e → ExplainedFrom cx fuel (NoReadIface cx n) .r n st.s e) ∧
+    ((exec cx (fuel + 1) (.isWritable n) st).1 = .err e → ExplainedFrom cx fuel (NoWriteIface cx n) .w n st.s e) := by
+  constructor <;> intro h <;> simp only [exec, top] at h
+  · refine isReadableF_r fuel n st.s e ?_
+    unfold runR at h; unfold R.val
+    cases hm : isReadableF cx (execRec cx fuel) n st.s with
+    | mk r l => rw [hm] at h; cases r <;> simp at h ⊢; exact h
+  · refine isWritableF_r fuel n st.s e ?_
+    unfold runR at h; unfold R.val
+    cases hm : isWritableF cx (execRec cx fuel) n st.s with
+    | mk r l => rw [hm] at h; cases r <;> simp at h ⊢; exact h
+
+private theorem consults_of_explained {cx : Ctx F E} {fuel : Nat} {own : Prop} {m : Mode} {n : NodeId}
+    {s : S F} {e : Err} (hx : ExplainedFrom cx fuel own m n s e) (h1 : e ≠ .invalidNode) (h2 : e ≠ .outOfFuel) :
+    ∃ c d, d ≤ fuel ∧ ConsultsNode cx m n c ∧
+      (R.val (boolFromId cx (execRec cx d) c) s = .err e ∨ R.val (pIndexIndex cx (execRec cx d) c) s = .err e) := by
+  rcases hx with ⟨h, _⟩ | h | ⟨c, d, hd, hc⟩
+  · exact absurd h h1
+  · exact absurd h h2
+  · rcases hc with ⟨hb, hv⟩ | ⟨hb, hv⟩
+    · exact ⟨c, d, hd, hb.consults, .inl hv⟩
+    · exact ⟨c, d, hd, hb.consults, .inr hv⟩
+
+/-- **access_error_consults**: the short form.  Any error of an access query of `n` other than
+`InvalidNode` / `outOfFuel` is the error with which a node `c` that THIS query consults
+(`ConsultsNode cx .r n c` for `is_readable`, `.w` for `is_writable`; `c` is referred to as
+controlling node or selector by a consulted node) fails to evaluate at that state. -/
+theorem access_error_consults (cx : Ctx F E) (fuel : Nat) (n : NodeId) (st : St F) (e : Err)
+    (h1 : e ≠ .invalidNode) (h2 : e ≠ .outOfFuel) :
+    ((exec cx (fuel + 1) (.isReadable n) st).1 = .err e →
+      ∃ c d, d ≤ fuel ∧ ConsultsNode cx .r n c ∧
+        (R.val (boolFromId cx (execRec cx d) c) st.s = .err e ∨ R.val (pIndexIndex cx (execRec cx d) c) st.s = .err e)) ∧
+    ((exec cx (fuel + 1) (.isWritable n) st).1 = .err e →
+      ∃ c d, d ≤ fuel ∧ ConsultsNode cx .w n c ∧
+        (R.val (boolFromId cx (execRec cx d) c) st.s = .err e ∨ R.val (pIndexIndex cx (execRec cx d) c) st.s = .err e)) :=
+  ⟨fun h => consults_of_explained ((access_error_explained_reachable cx fuel n st e).1 h) h1 h2,
+   fun h => consults_of_explained ((access_error_explained_reachable cx fuel n st e).2 h) h1 h2⟩
+
+/-- **invalid_node_cause**: an `InvalidNode` answer of an access query of `n` has a located cause:
+`n` has no such interface, or a consulted node `c` is referred to as `k` without offering it, or a
+consulted controlling node / selector `c` fails to evaluate with `InvalidNode`. -/
+theorem invalid_node_cause (cx : Ctx F E) (fuel : Nat) (n : NodeId) (st : St F)
+    (h : (exec cx (fuel + 1) (.isReadable n) st).1 = .err .invalidNode) :
+    NoReadIface cx n ∨
+    (∃ c k, ConsultsNode cx .r n c ∧ Below cx .r n c k ∧ offers cx c k = false) ∨
+    ∃ c d, d ≤ fuel ∧ ConsultsNode cx .r n c ∧
+      (R.val (boolFromId cx (execRec cx d) c) st.s = .err .invalidNode ∨
+       R.val (pIndexIndex cx (execRec cx d) c) st.s = .err .invalidNode) := by
+  rcases (access_error_explained_reachable cx fuel n st .invalidNode).1 h with ⟨_, ho | ⟨c, k, hb, ho⟩⟩ | h | ⟨c, d, hd, hc⟩
+  · exact .inl ho
+  · exact .inr (.inl ⟨c, k, hb.consults, hb, ho⟩)
+  · cases h
+  · rcases hc with ⟨hb, hv⟩ | ⟨hb, hv⟩
+    · exact .inr (.inr ⟨c, d, hd, hb.consults, .inl hv⟩)
+    · exact .inr (.inr ⟨c, d, hd, hb.consults, .inr hv⟩)
+
+/-- `invalid_node_cause` for `is_writable` (`NoWriteIface`: not even a Command) -/
+theorem invalid_node_cause_writable (cx : Ctx F E) (fuel : Nat) (n : NodeId) (st : St F)
+    (h : (exec cx (fuel + 1) (.isWritable n) st).1 = .err .invalidNode) :
+    NoWriteIface cx n ∨
+    (∃ c k, ConsultsNode cx .w n c ∧ Below cx .w n c k ∧ offers cx c k = false) ∨
+    ∃ c d, d ≤ fuel ∧ ConsultsNode cx .w n c ∧
+      (R.val (boolFromId cx (execRec cx d) c) st.s = .err .invalidNode ∨
+       R.val (pIndexIndex cx (execRec cx d) c) st.s = .err .invalidNode) := by
+  rcases (access_error_explained_reachable cx fuel n st .invalidNode).2 h with ⟨_, ho | ⟨c, k, hb, ho⟩⟩ | h | ⟨c, d, hd, hc⟩
+  · exact .inl ho
+  · exact .inr (.inl ⟨c, k, hb.consults, hb, ho⟩)
+  · cases h
+  · rcases hc with ⟨hb, hv⟩ | ⟨hb, hv⟩
+    · exact .inr (.inr ⟨c, d, hd, hb.consults, .inl hv⟩)
+    · exact .inr (.inr ⟨c, d, hd, hb.consults, .inr hv⟩)
+
+/-- in `ExErr`, node 2 refers to node 1 as controlling node (its `pIsAvailable`) … -/
+example : Below ExErr.cx .r 2 1 .controller ∧ ConsultsNode ExErr.cx .r 2 1 := by
+  have h : Below ExErr.cx .r 2 1 .controller := .of_edge (m' := .v) ⟨by decide, _, rfl, by decide⟩
+  exact ⟨h, h.consults⟩
+/-- … while the query of node 1 consults nothing but node 1, so the failing node of a query of
+node 1 could not be node 2: the reachability clause is a real restriction -/
+example : ∀ a, Consults ExErr.cx (.r, 1) a → a = (.r, 1) := by
+  intro a h
+  cases h with
+  | refl => rfl
+  | step e _ =>
+    obtain ⟨_, nd, hg, hm⟩ := e
+    have : nd = (.intReg ⟨{}, [.address (.imm 100)], .imm 1, .rw, 0⟩ .unsigned .le) := by
+      have : ExErr.graph 1 = some nd := hg
+      simpa [ExErr.graph] using this.symm
+    subst this
+    simp [nodeRefs, baseRefs, optRefs] at hm
+/-- the lock of a node is consulted by its writable query only, and nothing is followed from a
+node that is only evaluated: in `Ex`, node 2 is locked by node 1 -/
+example : Below Ex.cx .w 2 1 .controller ∧ (∀ a, Consults Ex.cx (.r, 2) a → a = (.r, 2)) ∧
+    (∀ a, Consults Ex.cx (.v, 1) a → a = (.v, 1)) := by
+  refine ⟨.of_edge (m' := .v) ⟨by decide, _, rfl, by decide⟩, ?_, ?_⟩
+  · intro a h
+    cases h with
+    | refl => rfl
+    | step e _ =>
+      obtain ⟨_, nd, hg, hm⟩ := e
+      have : nd = (.integer { pIsLocked := some 1 } (.value 1) (.imm 2) (.imm 3) (.imm 1)) := by
+        have : Ex.graph 2 = some nd := hg
+        simpa [Ex.graph] using this.symm
+      subst this
+      simp [nodeRefs, baseRefs, optRefs, vkRefs] at hm
+  · intro a h
+    cases h with
+    | refl => rfl
+    | step e _ => exact absurd rfl e.1
+
+namespace ExInv
+/-- 0 port · 1 Integer over a slot · 2 String whose `pValue` is the integer node 1 (wrong kind) ·
+3 Integer whose `pIsLocked` is the absent node 9 -/
+def graph : Graph Int Unit
+  | 0 => some (.port {} false)
+  | 1 => some (.integer {} (.value 0) (.imm 1) (.imm 2) (.imm 1))
+  | 2 => some (.string {} (.pnode 1))
+  | 3 => some (.integer { pIsLocked := some 9 } (.value 0) (.imm 1) (.imm 2) (.imm 1))
+  | _ => none
+def cx : Ctx Int Unit := ⟨Ex.ops, Profile.dev, graph⟩
+def st : St Int := ⟨[.int 5, .int 0, .int 9], ⟨[7, 8], 0, 0⟩, []⟩
+end ExInv
+
+/-- `InvalidNode` with a wrong-kind witness: the string node 2 refers to node 1 as string value,
+node 1 is an integer node -/
+example : (exec ExInv.cx 3 (.isReadable 2) ExInv.st).1 = .err .invalidNode ∧
+    Below ExInv.cx .r 2 1 .str ∧ offers ExInv.cx 1 .str = false :=
+  ⟨rfl, .of_edge (m' := .r) ⟨by decide, _, rfl, by decide⟩, rfl⟩
+/-- `InvalidNode` from an absent controlling node: third clause, `controller_failure` case 3 -/
+example : (exec ExInv.cx 3 (.isWritable 3) ExInv.st).1 = .err .invalidNode ∧
+    Below ExInv.cx .w 3 9 .controller ∧
+    R.val (boolFromId ExInv.cx (execRec ExInv.cx 2) 9) ExInv.st.s = .err .invalidNode :=
+  ⟨rfl, .of_edge (m' := .v) ⟨by decide, _, rfl, by decide⟩, rfl⟩
+/-- `InvalidNode` because the node itself has no access interface (a port) -/
+example : (exec ExInv.cx 3 (.isReadable 0) ExInv.st).1 = .err .invalidNode ∧ NoReadIface ExInv.cx 0 :=
+  ⟨rfl, rfl, rfl, rfl, rfl, rfl⟩
+
+/-! ## Restrictions dominate along the value path; mode caps; writes are not gated -/
+
+/-- **readable_needs_sources / writable_needs_targets**: a readable node's value sources
+(`mustRead`: `pValue`, `pIndex` selector, `pValue` of Boolean / Enumeration / String / Converter,
+formula variables) are readable one level down; a writable node's value targets (`mustWrite`:
+`pValue` and EVERY `pValueCopy`, …) are writable and what it must read to be written
+(`mustReadToWrite`: selector, converter variables) is readable. -/
+theorem accessible_needs_value_path (cx : Ctx F E) (d : Nat) (n : NodeId) (nd : Node F E) (s : S F)
+    (hg : cx.graph n = some nd) :
+    (Readable cx (d + 1) n s → ∀ p ∈ mustRead nd, Readable cx d p s) ∧
+    (Writable cx (d + 1) n s → (∀ p ∈ mustWrite nd, Writable cx d p s) ∧
+                               (∀ p ∈ mustReadToWrite nd, Readable cx d p s)) :=
+  ⟨readable_sources cx d n nd s hg, writable_targets cx d n nd s hg⟩
+
+/-- **restriction_on_value_path_dominates**: whatever makes a node `c` on the value path of `n`
+inaccessible (not implemented, not available, locked, imposed / register access mode, …) makes
+`n` inaccessible: if `c` is `k` value-source steps from `n` (`ReadPath`) and is not `Readable`,
+`is_readable n` never answers `true`; if `c` is `k` value-target steps from `n` (`WritePath`) and
+is not `Writable`, `is_writable n` never answers `true`.  For every graph, state, path length. -/
+theorem restriction_on_value_path_dominates (cx : Ctx F E) (fuel k : Nat) (n c : NodeId) (st st' : St F) (v : Val F) :
+    (ReadPath cx k n c → ¬ Readable cx (fuel + 1) c st.s →
+      exec cx (fuel + 1 + k) (.isReadable n) st = (.ok v, st') → v = .bool false) ∧
+    (WritePath cx k n c → ¬ Writable cx (fuel + 1) c st.s →
+      exec cx (fuel + 1 + k) (.isWritable n) st = (.ok v, st') → v = .bool false) := by
+  have e : fuel + 1 + k = (fuel + k) + 1 := by omega
+  constructor
+  · intro hp hc h
+    rw [e] at h
+    refine ranswer_false_of_not h fun hr => hc ?_
+    have hr' : readableB cx (fuel + 1 + k) n st.s = true := by rw [e]; exact hr
+    exact readable_along cx hp (fuel + 1) st.s hr'
+  · intro hp hc h
+    rw [e] at h
+    refine answer_false_of_not h fun hr => hc ?_
+    have hr' : writableB cx (fuel + 1 + k) n st.s = true := by rw [e]; exact hr
+    exact writable_along cx hp (fuel + 1) st.s hr'
+
+/-- **not_implemented_dominates**: if the `pIsImplemented` node of `n` — or of ANY node `c` on
+the value path of `n` (`k = 0`: `n` itself) — currently reads false, both `is_readable n` and
+`is_writable n` answer false (whenever they answer).  Same proof for `pIsAvailable`
+(`unavailable_dominates`). -/
+theorem not_implemented_dominates (cx : Ctx F E) (fuel k : Nat) (n c ctl : NodeId) (nd : Node F E)
+    (st st' : St F) (v : Val F)
+    (hg : cx.graph c = some nd) (hl : nd.base.pIsImplemented = some ctl) (hc : CtlFalse cx fuel ctl st.s) :
+    (ReadPath cx k n c → exec cx (fuel + 1 + k) (.isReadable n) st = (.ok v, st') → v = .bool false) ∧
+    (WritePath cx k n c → exec cx (fuel + 1 + k) (.isWritable n) st = (.ok v, st') → v = .bool false) := by
+  have hcv : ctlValue cx fuel ctl st.s = some false := hc
+  refine ⟨fun hp h => (restriction_on_value_path_dominates cx fuel k n c st st' v).1 hp ?_ h,
+          fun hp h => (restriction_on_value_path_dominates cx fuel k n c st st' v).2 hp ?_ h⟩
+  · intro hr
+    obtain ⟨nd', hg', hb⟩ := Readable.base hr
+    rw [hg] at hg'; cases hg'
+    simp [baseReadable, ctlIs, hl, hcv] at hb
+  · intro hw
+    obtain ⟨nd', hg', hb⟩ := Writable.base hw
+    rw [hg] at hg'; cases hg'
+    simp [baseWritable, ctlIs, hl, hcv] at hb
+
+/-- `not_implemented_dominates` for `pIsAvailable` -/
+theorem unavailable_dominates (cx : Ctx F E) (fuel k : Nat) (n c ctl : NodeId) (nd : Node F E)
+    (st st' : St F) (v : Val F)
+    (hg : cx.graph c = some nd) (hl : nd.base.pIsAvailable = some ctl) (hc : CtlFalse cx fuel ctl st.s) :
+    (ReadPath cx k n c → exec cx (fuel + 1 + k) (.isReadable n) st = (.ok v, st') → v = .bool false) ∧
+    (WritePath cx k n c → exec cx (fuel + 1 + k) (.isWritable n) st = (.ok v, st') → v = .bool false) := by
+  have hcv : ctlValue cx fuel ctl st.s = some false := hc
+  refine ⟨fun hp h => (restriction_on_value_path_dominates cx fuel k n c st st' v).1 hp ?_ h,
+          fun hp h => (restriction_on_value_path_dominates cx fuel k n c st st' v).2 hp ?_ h⟩
+  · intro hr
+    obtain ⟨nd', hg', hb⟩ := Readable.base hr
+    rw [hg] at hg'; cases hg'
+    simp [baseReadable, ctlIs, hl, hcv] at hb
+  · intro hw
+    obtain ⟨nd', hg', hb⟩ := Writable.base hw
+    rw [hg] at hg'; cases hg'
+    simp [baseWritable, ctlIs, hl, hcv] at hb
+
+/-- **locked_target_dominates**: a lock anywhere on the value-TARGET path (`pValue`, any
+`pValueCopy`, … of `n`, transitively; `k = 0`: `n` itself) makes `n` unwritable. -/
+theorem locked_target_dominates (cx : Ctx F E) (fuel k : Nat) (n c ctl : NodeId) (nd : Node F E)
+    (st st' : St F) (v : Val F)
+    (hg : cx.graph c = some nd) (hl : nd.base.pIsLocked = some ctl) (hc : CtlTrue cx fuel ctl st.s)
+    (hp : WritePath cx k n c) (h : exec cx (fuel + 1 + k) (.isWritable n) st = (.ok v, st')) : v = .bool false := by
+  have hcv : ctlValue cx fuel ctl st.s = some true := hc
+  refine (restriction_on_value_path_dominates cx fuel k n c st st' v).2 hp ?_ h
+  intro hw
+  obtain ⟨nd', hg', hb⟩ := Writable.base hw
+  rw [hg] at hg'; cases hg'
+  simp [baseWritable, ctlIs, hl, hcv] at hb
+
+/-- **imposed_access_mode_caps** / **register_access_mode_caps**, at the level of the predicates
+and for every depth and state (no hypothesis that the query answers): `ImposedAccessMode` RO or a
+register `AccessMode` RO ⇒ never `Writable`; WO ⇒ never `Readable` — for every node kind; hence
+`is_writable` / `is_readable` never answers `true` there (it answers `false`, or fails). -/
+theorem access_mode_caps (cx : Ctx F E) (d : Nat) (n : NodeId) (nd : Node F E) (s : S F)
+    (hg : cx.graph n = some nd) :
+    ((nd.base.imposed = .ro ∨ ∃ rb, nd.regBase? = some rb ∧ rb.accessMode = .ro) → ¬ Writable cx d n s) ∧
+    ((nd.base.imposed = .wo ∨ ∃ rb, nd.regBase? = some rb ∧ rb.accessMode = .wo) → ¬ Readable cx d n s) := by
+  cases d with
+  | zero => exact ⟨fun _ h => by simp [Writable, writableB] at h, fun _ h => by simp [Readable, readableB] at h⟩
+  | succ d =>
+    constructor
+    · rintro (hro | ⟨rb, hr, hro⟩) hw
+      · obtain ⟨nd', hg', hb⟩ := Writable.base hw
+        rw [hg] at hg'; cases hg'
+        simp [baseWritable, hro] at hb
+      · exact Writable.reg hw hg hr hro
+    · rintro (hwo | ⟨rb, hr, hwo⟩) hw
+      · obtain ⟨nd', hg', hb⟩ := Readable.base hw
+        rw [hg] at hg'; cases hg'
+        simp [baseReadable, hwo] at hb
+      · exact Readable.reg hw hg hr hwo
+
+/-- … and the queries: under such a mode the answer is never `true`, whatever the final state -/
+theorem access_mode_caps_answer (cx : Ctx F E) (fuel : Nat) (n : NodeId) (nd : Node F E) (st st' : St F)
+    (hg : cx.graph n = some nd) :
+    ((nd.base.imposed = .ro ∨ ∃ rb, nd.regBase? = some rb ∧ rb.accessMode = .ro) →
+      exec cx (fuel + 1) (.isWritable n) st ≠ (.ok (.bool true), st')) ∧
+    ((nd.base.imposed = .wo ∨ ∃ rb, nd.regBase? = some rb ∧ rb.accessMode = .wo) →
+      exec cx (fuel + 1) (.isReadable n) st ≠ (.ok (.bool true), st')) := by
+  constructor
+  · intro hm h
+    have := answer_false_of_not h ((access_mode_caps cx (fuel + 1) n nd st.s hg).1 hm)
+    simp at this
+  · intro hm h
+    have := ranswer_false_of_not h ((access_mode_caps cx (fuel + 1) n nd st.s hg).2 hm)
+    simp at this
+
+/-- **set_value_not_gated_by_access** (what holds instead of "not writable ⇒ the write is
+refused"): `set_value` performs NO access check of its own.  There are a graph, a state and a
+node (`Ex`: the Integer node 2, locked by node 1 which reads 1) such that `is_writable` answers
+`false` and `set_value` is nevertheless carried out: it answers `ok` and changes the value store.
+`NotWritable` is returned only for structural reasons (formula nodes, true immediates, a value
+target of a kind without a value interface — `const_not_writable`, `imm_access`).  The same run
+on the real nodes: corpus entry `corpus/C18/set-value-not-gated-by-access.json` (replayed and
+compared with the model in every check run).  So callers must ask `is_writable` themselves, as
+the crate's documentation examples do. -/
+theorem set_value_not_gated_by_access :
+    ∃ (cx : Ctx Int Unit) (n : NodeId) (st : St Int) (v : Int),
+      exec cx 3 (.isWritable n) st = (.ok (.bool false), st) ∧
+      (exec cx 3 (.intSet n v) st).1 = .ok .unit ∧
+      (exec cx 3 (.intSet n v) st).2.vs ≠ st.vs :=
+  ⟨Ex.cx, 2, Ex.st1, 7, by rfl, by rfl, fun h => by
+    have h2 : (some (ValueData.int 7) : Option (ValueData Int)) = some (.int 5) := congrArg (fun l => l[1]?) h
+    simp at h2⟩
+
+namespace ExPath
+/-- 0 port · 1 Integer (slot 0): the controller · 2 Integer over slot 1 whose `pIsImplemented` is 1 ·
+3 Integer with `pValue` 2 · 4 Integer with `pValue` 3 and copy 2 -/
+def graph : Graph Int Unit
+  | 0 => some (.port {} false)
+  | 1 => some (.integer {} (.value 0) (.imm 2) (.imm 3) (.imm 1))
+  | 2 => some (.integer { pIsImplemented := some 1 } (.value 1) (.imm 2) (.imm 3) (.imm 1))
+  | 3 => some (.integer {} (.pValue 2 []) (.imm 2) (.imm 3) (.imm 1))
+  | 4 => some (.integer {} (.pValue 3 [2]) (.imm 2) (.imm 3) (.imm 1))
+  | _ => none
+def cx : Ctx Int Unit := ⟨Ex.ops, Profile.dev, graph⟩
+/-- controller reads 0: node 2 is not implemented -/
+def st : St Int := ⟨[.int 0, .int 5, .int 0, .int 9], ⟨[7, 8], 0, 0⟩, []⟩
+/-- controller reads 1 -/
+def st' : St Int := ⟨[.int 1, .int 5, .int 0, .int 9], ⟨[7, 8], 0, 0⟩, []⟩
+end ExPath
+
+/-- node 2 is two value-source (and value-target) steps below node 4 … -/
+example : ReadPath ExPath.cx 2 4 2 ∧ WritePath ExPath.cx 2 4 2 ∧ WritePath ExPath.cx 1 4 2 :=
+  ⟨.next (m := 3) (nd := .integer {} (.pValue 3 [2]) (.imm 2) (.imm 3) (.imm 1)) rfl (by simp [mustRead])
+      (.next (m := 2) (nd := .integer {} (.pValue 2 []) (.imm 2) (.imm 3) (.imm 1)) rfl (by simp [mustRead]) (.here 2)),
+   .next (m := 3) (nd := .integer {} (.pValue 3 [2]) (.imm 2) (.imm 3) (.imm 1)) rfl (by simp [mustWrite])
+      (.next (m := 2) (nd := .integer {} (.pValue 2 []) (.imm 2) (.imm 3) (.imm 1)) rfl (by simp [mustWrite]) (.here 2)),
+   .next (m := 2) (nd := .integer {} (.pValue 3 [2]) (.imm 2) (.imm 3) (.imm 1)) rfl (by simp [mustWrite]) (.here 2)⟩
+/-- … its `pIsImplemented` reads false in `st`, the queries of node 4 answer (`false`), and they
+answer `true` once the controller reads 1: hypotheses of `not_implemented_dominates` are
+satisfiable and the conclusion is not the only possible answer -/
+example : CtlFalse ExPath.cx 1 1 ExPath.st.s ∧
+    exec ExPath.cx (1 + 1 + 2) (.isReadable 4) ExPath.st = (.ok (.bool false), ExPath.st) ∧
+    exec ExPath.cx (1 + 1 + 2) (.isWritable 4) ExPath.st = (.ok (.bool false), ExPath.st) ∧
+    exec ExPath.cx (1 + 1 + 2) (.isReadable 4) ExPath.st' = (.ok (.bool true), ExPath.st') ∧
+    exec ExPath.cx (1 + 1 + 2) (.isWritable 4) ExPath.st' = (.ok (.bool true), ExPath.st') := by
+  refine ⟨?_, ?_, ?_, ?_, ?_⟩ <;> rfl
+/-- `access_mode_caps`: the RO / WO registers of `Ex` -/
+example : ¬ Writable Ex.cx 5 3 Ex.st1.s ∧ ¬ Readable Ex.cx 5 4 Ex.st1.s :=
+  ⟨(access_mode_caps Ex.cx 5 3 _ Ex.st1.s rfl).1 (.inr ⟨_, rfl, rfl⟩),
+   (access_mode_caps Ex.cx 5 4 _ Ex.st1.s rfl).2 (.inr ⟨_, rfl, rfl⟩)⟩
+
+/-- **selected_branch_accessible**: the state-dependent step of the value path.  A readable
+(writable) Integer / Float whose value is selected by `pIndex`: the selector currently has a value
+`i`, and the branch that `i` selects — an indexed entry or the default — is readable (writable)
+if it is a node.  (The selector itself is in `mustRead` / `mustReadToWrite`.)  So a restriction
+on the CURRENTLY selected branch dominates, and one on another branch does not matter. -/
+theorem selected_branch_accessible (cx : Ctx F E) (d : Nat) (n sel : NodeId) (nd : Node F E)
+    (es : List (Int × ImmOrPNode SlotId)) (dflt : ImmOrPNode SlotId) (s : S F)
+    (hg : cx.graph n = some nd)
+    (hk : (∃ b mn mx inc, nd = .integer b (.pIndex sel es dflt) mn mx inc) ∨
+          (∃ b mn mx inc, nd = .float b (.pIndex sel es dflt) mn mx inc)) :
+    (Readable cx (d + 1) n s → ∃ i, selValue cx d sel s = some i ∧
+      ∀ p, pIndexSelect es dflt i = .pnode p → Readable cx d p s) ∧
+    (Writable cx (d + 1) n s → ∃ i, selValue cx d sel s = some i ∧
+      ∀ p, pIndexSelect es dflt i = .pnode p → Writable cx d p s) :=
+  selected_branch cx d n sel nd es dflt s hg hk
+
+namespace ExIdx
+/-- 0 port · 1 Integer (slot 0): the selector · 2 Integer over slot 1 · 3 IntReg WO ·
+4 Integer whose value is node 3 when the selector reads 1 and node 2 otherwise -/
+def graph : Graph Int Unit
+  | 0 => some (.port {} false)
+  | 1 => some (.integer {} (.value 0) (.imm 2) (.imm 3) (.imm 1))
+  | 2 => some (.integer {} (.value 1) (.imm 2) (.imm 3) (.imm 1))
+  | 3 => some (.intReg ⟨{}, [.address (.imm 0)], .imm 1, .wo, 0⟩ .unsigned .le)
+  | 4 => some (.integer {} (.pIndex 1 [(1, .pnode 3)] (.pnode 2)) (.imm 2) (.imm 3) (.imm 1))
+  | _ => none
+def cx : Ctx Int Unit := ⟨Ex.ops, Profile.dev, graph⟩
+/-- selector reads 1: the write-only register is selected -/
+def st1 : St Int := ⟨[.int 1, .int 5, .int 0, .int 9], ⟨[7, 8], 0, 0⟩, []⟩
+/-- selector reads 0: the default branch (node 2) is selected -/
+def st0 : St Int := ⟨[.int 0, .int 5, .int 0, .int 9], ⟨[7, 8], 0, 0⟩, []⟩
+end ExIdx
+
+/-- the answers follow the selected branch: WO register selected ⇒ writable, not readable;
+default branch selected ⇒ both -/
+example : exec ExIdx.cx 4 (.isReadable 4) ExIdx.st1 = (.ok (.bool false), ExIdx.st1) ∧
+    exec ExIdx.cx 4 (.isWritable 4) ExIdx.st1 = (.ok (.bool true), ExIdx.st1) ∧
+    exec ExIdx.cx 4 (.isReadable 4) ExIdx.st0 = (.ok (.bool true), ExIdx.st0) ∧
+    exec ExIdx.cx 4 (.isWritable 4) ExIdx.st0 = (.ok (.bool true), ExIdx.st0) ∧
+    selValue ExIdx.cx 3 1 ExIdx.st1.s = some 1 ∧ pIndexSelect [(1, .pnode 3)] (.pnode 2) 1 = .pnode 3 := by
+  refine ⟨?_, ?_, ?_, ?_, ?_, ?_⟩ <;> rfl
 
 end CamVerif.C18
